@@ -182,3 +182,10 @@ def u_finite_discrete(ip):
     c.oblige("draw_is_selected_outcome", isinstance(out, dict) and list(out) == ["k"] and ip.to_U(out["k"]).eq(outcomes[1]))
     c.oblige("categorical_gets_the_transition_key", got.get("key") is key)
     c.oblige("user_model_untouched", ip.to_U(ip.getattr(model.f["_vars"]["k"], "value")).eq(z3.Const("val_k", U)) and ip.to_U(ip.getattr(model.f["_vars"]["m"], "value")).eq(z3.Const("val_m", U)))
+
+
+# both Gibbs kernels run through GibbsKernel.transition: the draw of the transition function must reach the model state unmodified
+# (same harness as C09.frame.Gibbs)
+from contracts.c09 import frame_unit  # noqa: E402
+
+frame_unit("Gibbs", uid="C13.gibbs_wrapper_passes_the_draw_through", prop="C13")
